@@ -26,12 +26,18 @@ var StrProfiles = map[string]map[string]string{
 	"astral": {"s1": "😀", "s2": "a😀b𝄞"},
 	"empty":  {"s1": "", "s2": "z"},
 	"mixed":  {"s1": "é😀\"'", "s2": "plain"},
+	// quote kinds x trailing backslashes: a printer that picks the quoting by content
+	// must still escape; `\'` / `\"` / `\\` are units of the quoted-string rules
+	"qbs1": {"s1": `say "hi"\`, "s2": `a"b\\\`},          // double quote only; 1 and 3 trailing
+	"qbs2": {"s1": `it's\`, "s2": `x"y\\`},               // single only, 1 trailing; double only, 2 trailing
+	"qbs3": {"s1": `"\`, "s2": `it's "both"\`},           // a lone quote + backslash; both kinds
+	"qbs4": {"s1": `neither\`, "s2": `it's\\ neither\\\`}, // no quote, 1 trailing; single, inner 2 and 3 trailing
 	// printf verbs, a literal backslash-n, braces, dollar, backtick, a lone trailing %
 	"pct": {"s1": "50% off", "s2": "%d a%sb %% %! 100%v {} $x `q` \\n \\\\ %"},
 }
 
 // StrProfileNames in a fixed order.
-var StrProfileNames = []string{"ascii", "esc", "bmp", "astral", "empty", "mixed", "pct"}
+var StrProfileNames = []string{"ascii", "esc", "bmp", "astral", "empty", "mixed", "pct", "qbs1", "qbs2", "qbs3", "qbs4"}
 
 // IntProfiles maps the spec's abstract integers to concrete ones.
 var IntProfiles = map[string]map[int]int64{
